@@ -650,6 +650,16 @@ func writeEvidence(root string, a *Agg, nviol int) {
 	for k, v := range a.Extra {
 		cov[k] = v
 	}
+	var overlaps []string
+	for k := range a.NT {
+		if strings.HasPrefix(k, "overlap:") {
+			overlaps = append(overlaps, strings.TrimPrefix(k, "overlap:"))
+		}
+	}
+	if len(overlaps) > 0 {
+		sort.Strings(overlaps)
+		cov["call_kinds_observed_executing_concurrently"] = overlaps
+	}
 	ev := map[string]interface{}{
 		"property_id": p.ID,
 		"tier":        a.Tier,
